@@ -337,7 +337,9 @@ func (gc *primaryGC) reapRecords(fileNum uint32, lowUsePercent int64) (bool, err
 			// that was overwritten or removed, and is not yet marked as
 			// deleted, must not replace the current value of its key.
 			offset := absolutePrimaryPos(types.Position(busyAt), fileNum, gc.primary.maxFileSize)
+			moved := true
 			if err = gc.updateIndex(indexKey, offset, fileOffset); err != nil {
+				moved = false
 				log.Errorw("Cannot update index with new record location", "err", err)
 				// Failed to index the moved record, most likely because the
 				// key was not found in the index. The moved record is
@@ -354,10 +356,16 @@ func (gc *primaryGC) reapRecords(fileNum uint32, lowUsePercent int64) (bool, err
 			// GC cycle process freelist and delete this record. This also
 			// keeps low-use files getting processed each GC cycle.
 
-			// Add outdated data in primary storage to freelist
-			blk := types.Block{Size: types.Size(busySize), Offset: types.Position(offset)}
-			if err = gc.freeList.Put(blk); err != nil {
-				return false, fmt.Errorf("cannot put old record location into freelist: %w", err)
+			// Add outdated data in primary storage to freelist. If the record
+			// was not moved, then it was no longer the current record of its
+			// key: the update or removal that superseded it has already put
+			// this location on the freelist, and it must not be put there a
+			// second time.
+			if moved {
+				blk := types.Block{Size: types.Size(busySize), Offset: types.Position(offset)}
+				if err = gc.freeList.Put(blk); err != nil {
+					return false, fmt.Errorf("cannot put old record location into freelist: %w", err)
+				}
 			}
 
 			vhook.At("mh.gc.relocate.after-free")
